@@ -161,3 +161,26 @@ def colsToSlice : List Int → Option PySlice
     else some ⟨some a, some (z - 1), some (-1)⟩
 
 end SF
+
+namespace SF
+
+/-- `TypeBlocks._indices_to_contiguous_pairs(indices)` over Python ints, with its loop state
+    `(last, bundle)`: the reference the translated source is bridged to (`Bridge.contiguous_ref_bridge`).
+    The block model's `contiguousPairs` (Blocks.lean) is this function on naturals
+    (`Bridge.contiguousPairsInt_cast`).  `none` = `_cols_to_slice` raised (only on an empty bundle,
+    which the loop never produces). -/
+def contiguousPairsInt : List (Int × Int) → Option (Int × Int) → List Int → Option (List (Int × PySlice))
+  | [], none, _ => some []
+  | [], some (lb, _), bundle =>
+      if bundle.isEmpty then some [] else
+      (colsToSlice bundle).map fun s => [(lb, s)]
+  | (b, c) :: rest, none, _ => contiguousPairsInt rest (some (b, c)) [c]
+  | (b, c) :: rest, some (lb, lc), bundle =>
+      if lb = b ∧ (c - lc).natAbs = 1 then
+        contiguousPairsInt rest (some (b, c)) (bundle ++ [c])
+      else
+        match colsToSlice bundle, contiguousPairsInt rest (some (b, c)) [c] with
+        | some s, some tl => some ((lb, s) :: tl)
+        | _, _ => none
+
+end SF
